@@ -1,1 +1,805 @@
+import LenaModel.Model.C14
 import LenaModel.Lemmas.C14
+/-! # C14 — property theorems (variables compose like functions and keep each variable's description)
+
+The model (`Model/C14.lean`) transcribes `lena/variables/variable.py`; `fx = true` is the tree with
+`notes/C14_defect_1.patch` (commit 0eafe05 of /repo), `fx = false` the tree before it.  A dictionary is a slot
+vector over the key alphabet `names`; `UP` (in `Lemmas/C14.lean`) is `_update_context` on well-formed dictionaries.
+
+Sentence of the property → theorem (all for every chain length / nesting / input value, no bounds):
+
+* "Compose(v1..vn) and the Sequence (v1..vn) produce the same data … and the same context"
+  → `compose_eq_sequence` (hypotheses `NamesOK`, `ChainWF`; rests on `UP_assoc`: `_update_context` is associative);
+  for the tree before the patch `compose_eq_sequence_pinned_partial` and the refutation `compose_ne_sequence_pinned`.
+  `chainWFb_sound`: the Boolean check of `ChainWF` that the driver reports for every generated case is sound.
+* "… the same data, vn.getter(...v1.getter(x)...)" → `seqCall_data`, `compose_getter`, `call_data`.
+* "Combine produces the tuple of the getters' results" → `combine_tuple` (and `combine_context` for its context).
+* "context.variable carries the name and attributes of the resulting variable" → `call_carries_attributes`
+  (unconditional), `mkVariable_attributes`.
+* "for variables with pairwise distinct non-empty types the attributes of every composed variable stay available
+  under its type while compose lists the types in application order" → `types_persist`, `compose_order`,
+  `earlier_types_persist` (hypothesis `LeavesOK`), on top of `seqCall_result` (the explicit result of a chain).
+* "Applying a variable changes … [no] part of the value's context other than context.variable" → `call_frame`,
+  `seqCall_frame`.  "changes neither the variable … so repeated application to equal values gives equal results":
+  in the model `call` is a function of the variable and the value and returns no new variable, so this is true by
+  construction; the harness checks it on the real objects (var_context snapshots, every value applied twice).
+* the documented rejections of the constructors → `mkVariable_rejects`, `mkCompose_rejects`, `mkCombine_rejects`. -/
+namespace Lena.C14
+open V
+
+section
+variable {names : List String} {D : Type}
+
+/-- Hypotheses of `compose_eq_sequence` on the value's `context.variable` `cv` and the variables' contexts `as`:
+* a pre-existing `context.variable` that is a dictionary is well-formed (`VarWF`: over the alphabet, `compose` a
+  non-empty list of strings, `type` a non-empty string); absent or non-dictionary values are unrestricted;
+* every variable context is well-formed and has a `name`;
+* no attribute is named like a type: a key of the pre-existing dictionary or of a variable context that is the
+  name of a type of the run is one of the types that dictionary lists itself;
+* no type is called `"compose"`. -/
+structure ChainWF (names : List String) (cv : Option V) (as : List Slots) : Prop where
+  pre : ∀ p, cv = some (.dict p) → VarWF names p ∧ NoClash names (allTypes names cv as) p
+  vars : ∀ a ∈ as, VarWF names a ∧ NoClash names (allTypes names cv as) a ∧ (getSlot a (kName names)).isSome = true
+  noCompose : inT names (allTypes names cv as) (kCompose names) = false
+
+/-- Hypothesis needed only for the condition as pinned (`fx = false`): a pre-existing dictionary
+`context.variable` has `type` whenever it has `compose`, and every variable but the last is typed. -/
+def PinnedOK (names : List String) (fx : Bool) (cv : Option V) (as : List Slots) : Prop :=
+  fx = true ∨ ((∀ p, cv = some (.dict p) → hasKey p (kCompose names) = true → hasKey p (kType names) = true) ∧
+               ∀ b ∈ as.dropLast, hasKey b (kType names) = true)
+
+/-- common proof of `compose_eq_sequence` (patched condition) and `compose_eq_sequence_pinned_partial` -/
+theorem compose_eq_sequence_gen (hn : NamesOK names) (fx : Bool) (vars : List (Variable D)) (hne : vars ≠ [])
+    (x : Value D) (h : ChainWF names (cvarOf names x) (vars.map Variable.varCtx))
+    (hfx : PinnedOK names fx (cvarOf names x) (vars.map Variable.varCtx)) :
+    ∃ c, mkCompose names fx (vars.map some) (emptyD names.length) = .ok c ∧
+         call names fx c x = seqCall names fx vars x := by
+  cases vars with
+  | nil => exact absurd rfl hne
+  | cons v1 rest =>
+    have hv : ∀ v ∈ v1 :: rest, VarWF names v.varCtx ∧ (getSlot v.varCtx (kName names)).isSome = true := by
+      intro v hv
+      have := h.vars v.varCtx (List.mem_map.2 ⟨v, hv, rfl⟩)
+      exact ⟨this.1, this.2.2⟩
+    have hct : ChainTyped names fx ((v1 :: rest).map Variable.varCtx) := by
+      rcases hfx with h1 | h1
+      · exact Or.inl h1
+      · exact Or.inr h1.2
+    refine ⟨_, mkCompose_ok hn v1 rest hv hct, ?_⟩
+    have hA := VarWF_foldl hn (rest.map Variable.varCtx) v1.varCtx (hv v1 (by simp)).1
+      (by intro b hb; obtain ⟨w, hw, rfl⟩ := List.mem_map.1 hb; exact (hv w (by simp [hw])).1)
+    -- the value's data and context
+    generalize hx : getDataContext names x = dc at *
+    obtain ⟨d, ctx⟩ := dc
+    have hcv : cvarOf names x = getSlot ctx (kVariable names) := by simp [cvarOf, hx]
+    by_cases hdict : ∃ p, getSlot ctx (kVariable names) = some (.dict p)
+    · -- a pre-existing dictionary: associativity of the update
+      obtain ⟨p, hp⟩ := hdict
+      have hpre := h.pre p (by rw [hcv, hp])
+      have hsp : StepOK names fx p := by
+        rcases hfx with h1 | h1
+        · exact Or.inl h1
+        · exact Or.inr (h1.1 p (by rw [hcv, hp]))
+      have hxp : x = .pair d ctx := by
+        cases x with
+        | bare d0 => simp [getDataContext] at hx; rw [← hx.2] at hp; simp at hp
+        | pair d0 c0 => simp [getDataContext] at hx; rw [hx.1, hx.2]
+      subst hxp
+      rw [seqCall_dict hn rest v1 d ctx p hp hpre.1 (hv v1 (by simp)).1 (fun w hw => (hv w (by simp [hw])).1) hsp hct]
+      simp only [call, getDataContext, updateContext, hp, updateVar_eq_UP_gen hn hpre.1 hA hsp]
+      have hT : allTypes names (cvarOf names (Value.pair d ctx)) (List.map Variable.varCtx (v1 :: rest)) =
+          hist names p ++ hist names v1.varCtx ++ (rest.map Variable.varCtx).flatMap (hist names) := by
+        simp [allTypes, hcv, hp, preHist, List.append_assoc]
+      rw [fold_assoc hn hpre.1 hpre.2 h.noCompose (rest.map Variable.varCtx) v1.varCtx (hv v1 (by simp)).1
+        (h.vars v1.varCtx (by simp)).2.1
+        (by intro b hb; obtain ⟨w, hw, rfl⟩ := List.mem_map.1 hb
+            have := h.vars w.varCtx (List.mem_map.2 ⟨w, by simp [hw], rfl⟩)
+            exact ⟨this.1, this.2.1⟩)
+        (by intro j hj; rw [hT]; exact hj)]
+    · -- no dictionary there: the first variable either raises or starts a fresh history
+      have hnd : ∀ p, getSlot ctx (kVariable names) ≠ some (.dict p) := fun p hp => hdict ⟨p, hp⟩
+      have hcall : ∀ v : Variable D, call names fx v x =
+          match updateVar names fx (getSlot ctx (kVariable names)) v.varCtx with
+          | .ok r => .ok (v.getter d, setSlot ctx (kVariable names) (some (.dict r)))
+          | .error e => .error e := by
+        intro v
+        simp only [call, hx, updateContext]
+        cases updateVar names fx (getSlot ctx (kVariable names)) v.varCtx <;> rfl
+      rcases updateVar_nondict (names := names) fx (getSlot ctx (kVariable names)) hnd with hok | ⟨e, herr⟩
+      · rw [hcall, hok]
+        have hs : seqCall names fx (v1 :: rest) x =
+            seqCall names fx rest (.pair (v1.getter d) (setSlot ctx (kVariable names) (some (.dict v1.varCtx)))) := by
+          simp only [seqCall, hcall, hok]
+        rw [hs]
+        cases rest with
+        | nil => rfl
+        | cons w r =>
+          have ht' := ChainTyped.tail (by simpa using hct)
+          rw [seqCall_dict hn r w _ _ v1.varCtx (by simp [getSlot_setSlot]) (hv v1 (by simp)).1 (hv w (by simp)).1
+            (fun u hu => (hv u (by simp [hu])).1) (StepOK.of_typed ht'.2) (by simpa using ht'.1)]
+          simp only [setSlot_setSlot, chainData, List.foldl_cons, List.map_cons]
+      · rw [hcall, herr]
+        simp only [seqCall, hcall, herr]
+
+/-- **Compose(v₁,…,vₙ) and the Sequence (v₁,…,vₙ) produce the same data and the same context** (first sentence of
+C14), for every chain length, every nesting (the `vᵢ` are arbitrary variables: plain, `Compose` or `Combine`, typed
+or not), every input value — bare, with a context, with any pre-existing `context.variable` (a well-formed
+dictionary, or anything that is not a dictionary, for which both raise the same exception or both ignore it).
+`Compose(...)` is constructed without an exception and applying it equals applying the variables in order.
+Holds for the tree with `notes/C14_defect_1.patch` (`fx = true`). -/
+theorem compose_eq_sequence (hn : NamesOK names) (vars : List (Variable D)) (hne : vars ≠ []) (x : Value D)
+    (h : ChainWF names (cvarOf names x) (vars.map Variable.varCtx)) :
+    ∃ c, mkCompose names true (vars.map some) (emptyD names.length) = .ok c ∧
+         call names true c x = seqCall names true vars x :=
+  compose_eq_sequence_gen hn true vars hne x h (Or.inl rfl)
+
+/-- the statement of `compose_eq_sequence` for the condition as pinned: false (`compose_ne_sequence_pinned`) -/
+def compose_eq_sequence_pinned_full : Prop :=
+  ∀ (names : List String) (D : Type), NamesOK names → ∀ (vars : List (Variable D)), vars ≠ [] → ∀ x : Value D,
+    ChainWF names (cvarOf names x) (vars.map Variable.varCtx) →
+    ∃ c, mkCompose names false (vars.map some) (emptyD names.length) = .ok c ∧
+         call names false c x = seqCall names false vars x
+
+/-- With the condition as pinned (`fx = false`, `/repo` before commit 0eafe05) the same holds only if every
+variable but the last is typed and the pre-existing `context.variable` has a `type` whenever it has `compose`.
+What is missing against the full statement: chains with an untyped non-last variable (`Combine` is untyped by
+default) — for those the statement is false, see `compose_ne_sequence_pinned`. -/
+theorem compose_eq_sequence_pinned_partial (hn : NamesOK names) (vars : List (Variable D)) (hne : vars ≠ [])
+    (x : Value D) (h : ChainWF names (cvarOf names x) (vars.map Variable.varCtx))
+    (hp : ∀ p, cvarOf names x = some (.dict p) → hasKey p (kCompose names) = true → hasKey p (kType names) = true)
+    (ht : ∀ b ∈ (vars.map Variable.varCtx).dropLast, hasKey b (kType names) = true) :
+    ∃ c, mkCompose names false (vars.map some) (emptyD names.length) = .ok c ∧
+         call names false c x = seqCall names false vars x :=
+  compose_eq_sequence_gen hn false vars hne x h (Or.inr ⟨hp, ht⟩)
+
+/-- the executable check of the hypotheses (reported by the driver for every generated case) is sound -/
+theorem chainWFb_sound {cv : Option V} {as : List Slots} (h : chainWFb names cv as = true) : ChainWF names cv as := by
+  simp only [chainWFb, Bool.and_eq_true, Bool.not_eq_true', List.all_eq_true] at h
+  obtain ⟨⟨hp, hv⟩, hc⟩ := h
+  refine ⟨?_, ?_, hc⟩
+  · intro p hcv
+    subst hcv
+    simp only [Bool.and_eq_true] at hp
+    have hw := varWFb_sound hp.1
+    exact ⟨hw, noClashB_sound hw.len hp.2⟩
+  · intro a ha
+    have := hv a ha
+    have hw := varWFb_sound this.1.1
+    exact ⟨hw, noClashB_sound hw.len this.1.2, this.2⟩
+
+end
+section
+variable {names : List String} {D : Type}
+
+/-! ### data: the getters applied in order; Combine gives the tuple of the getters' results -/
+
+/-- applying a variable applies its getter to the data (any version of the condition, any input) -/
+theorem call_data {fx : Bool} {v : Variable D} {x : Value D} {d : D} {c : Slots}
+    (h : call names fx v x = .ok (d, c)) : d = v.getter (getDataContext names x).1 := by
+  unfold call at h
+  cases hu : updateContext names fx (getDataContext names x).2 v.varCtx with
+  | error e => simp [hu] at h
+  | ok c' => simp [hu] at h; exact h.1.symm
+
+/-- **the Sequence (v₁,…,vₙ) produces the data `vₙ.getter(…v₁.getter(x)…)`** -/
+theorem seqCall_data {fx : Bool} (vars : List (Variable D)) (x : Value D) {d : D} {c : Slots}
+    (h : seqCall names fx vars x = .ok (d, c)) : d = chainData vars (getDataContext names x).1 := by
+  induction vars generalizing x with
+  | nil => simp [seqCall] at h; simp [chainData, h]
+  | cons v r ih =>
+    simp only [seqCall] at h
+    cases hc : call names fx v x with
+    | error e => simp [hc] at h
+    | ok dc =>
+      obtain ⟨d1, c1⟩ := dc
+      simp only [hc] at h
+      have := ih (.pair d1 c1) h
+      rw [this, call_data hc]
+      rfl
+
+/-- **`Compose(v₁,…,vₙ)` has the getter `x ↦ vₙ.getter(…v₁.getter(x)…)`** (whenever it can be constructed) -/
+theorem compose_getter {fx : Bool} {args : List (Option (Variable D))} {kw : Slots} {c : Variable D}
+    (h : mkCompose names fx args kw = .ok c) : c.getter = chainData (args.filterMap id) := by
+  unfold mkCompose at h
+  split at h
+  · cases h
+  · simp only [] at h
+    split at h
+    · cases h
+    · rename_i v1 rest hvars
+      split at h
+      · cases h
+      · split at h
+        · cases h
+        · split at h
+          · cases h
+          · cases h; rw [hvars]; rfl
+
+/-- **`Combine(v₁,…,vₙ)` produces the tuple of the getters' results** (whenever it can be constructed):
+its getter is `x ↦ (v₁.getter(x), …, vₙ.getter(x))` -/
+theorem combine_tuple (tup : List D → D) {args : List (Option (Variable D))} {kw : Slots} {c : Variable D}
+    (h : mkCombine names tup args kw = .ok c) (x : D) :
+    c.getter x = tup ((args.filterMap id).map (fun v => v.getter x)) := by
+  unfold mkCombine at h
+  split at h
+  · cases h
+  · split at h
+    · cases h
+    · simp only [] at h
+      split at h
+      · cases h
+      · split at h
+        · cases h
+        · split at h
+          · cases h
+          · rw [mkVariable_getter h]
+
+/-! ### frame: nothing but `context.variable` changes -/
+
+/-- **applying a variable changes no part of the value's context other than `context.variable`** -/
+theorem call_frame {fx : Bool} {v : Variable D} {x : Value D} {d : D} {c : Slots}
+    (h : call names fx v x = .ok (d, c)) (k : Nat) (hk : k ≠ kVariable names) :
+    getSlot c k = getSlot (getDataContext names x).2 k := by
+  unfold call updateContext at h
+  cases hu : updateVar names fx (getSlot (getDataContext names x).2 (kVariable names)) v.varCtx with
+  | error e => simp [hu] at h
+  | ok r =>
+    simp [hu] at h
+    rw [← h.2, getSlot_setSlot]
+    simp [hk]
+
+/-- the same for a whole chain -/
+theorem seqCall_frame {fx : Bool} (vars : List (Variable D)) (x : Value D) {d : D} {c : Slots}
+    (h : seqCall names fx vars x = .ok (d, c)) (k : Nat) (hk : k ≠ kVariable names) :
+    getSlot c k = getSlot (getDataContext names x).2 k := by
+  induction vars generalizing x with
+  | nil => simp [seqCall] at h; rw [h]
+  | cons v r ih =>
+    simp only [seqCall] at h
+    cases hc : call names fx v x with
+    | error e => simp [hc] at h
+    | ok dc =>
+      obtain ⟨d1, c1⟩ := dc
+      simp only [hc] at h
+      rw [ih (.pair d1 c1) h, ← call_frame hc k hk]
+      rfl
+
+/-! ### the constructors reject what the documentation says they reject -/
+
+/-- a getter that is a `Variable` or is not callable: `LenaTypeError` -/
+theorem mkVariable_rejects (name ty : V) (kw : Slots) :
+    mkVariable (D := D) names name .variable ty kw = .error .lenaTypeError ∧
+    mkVariable (D := D) names name .notCallable ty kw = .error .lenaTypeError := ⟨rfl, rfl⟩
+
+/-- `Compose()` without variables, with an argument that is not a `Variable`, or with a `getter` keyword:
+`LenaTypeError` -/
+theorem mkCompose_rejects (fx : Bool) (args : List (Option (Variable D))) (kw : Slots)
+    (h : args = [] ∨ none ∈ args ∨ hasKey kw (kGetter names) = true) :
+    mkCompose names fx args kw = .error .lenaTypeError := by
+  unfold mkCompose
+  by_cases hall : args.all Option.isSome = true
+  · simp only [hall, Bool.not_true, Bool.false_eq_true, if_false]
+    rcases h with h | h | h
+    · subst h; rfl
+    · have := List.all_eq_true.1 hall none h
+      cases this
+    · cases hv : List.filterMap id args with
+      | nil => rfl
+      | cons v1 rest => simp [h]
+  · simp [hall]
+
+/-- `Combine()` without variables or with an argument that is not a `Variable`: `LenaTypeError` -/
+theorem mkCombine_rejects (tup : List D → D) (args : List (Option (Variable D))) (kw : Slots)
+    (h : args = [] ∨ none ∈ args) :
+    mkCombine names tup args kw = .error .lenaTypeError := by
+  unfold mkCombine
+  rcases h with h | h
+  · subst h; rfl
+  · by_cases he : args.isEmpty = true
+    · simp [he]
+    · have hall : args.all Option.isSome = false := by
+        cases hx : args.all Option.isSome
+        · rfl
+        · have := List.all_eq_true.1 hx none h
+          cases this
+      simp [he, hall]
+
+end
+
+section
+variable {names : List String} {D : Type}
+
+/-! ### `context.variable` carries the name and the attributes of the resulting variable -/
+
+/-- **`context.variable` carries the name and the attributes of the resulting variable**: after applying `v`
+(to any value, under either version of the condition) `context.variable` is a dictionary that has every
+binding of `v.var_context` — `name` included — except possibly `compose`, which is extended by the history -/
+theorem call_carries_attributes {fx : Bool} {v : Variable D} {x : Value D} {d : D} {c : Slots}
+    (h : call names fx v x = .ok (d, c)) :
+    ∃ r, getSlot c (kVariable names) = some (.dict r) ∧
+      ∀ j, j ≠ kCompose names → ∀ a, getSlot v.varCtx j = some a → getSlot r j = some a := by
+  unfold call updateContext at h
+  cases hu : updateVar names fx (getSlot (getDataContext names x).2 (kVariable names)) v.varCtx with
+  | error e => simp [hu] at h
+  | ok r =>
+    simp [hu] at h
+    refine ⟨r, ?_, fun j hjc a hj => updateVar_keeps hu hjc hj⟩
+    rw [← h.2, getSlot_setSlot]; simp
+
+/-- a plain `Variable(name, getter, type=ty, **kw)` carries the name and the attributes it was given:
+`var_context["name"] == name` and `var_context[k] == kw[k]` (for a type that is not itself called `name`,
+resp. `k`; `kw` holds neither `name` nor `type`: they are named parameters) -/
+theorem mkVariable_attributes (hn : NamesOK names) {name : V} {f : D → D} {ty : String} {kw : Slots} {v : Variable D}
+    (h : mkVariable names name (.fn f) (.str ty) kw = .ok v)
+    (hkn : getSlot kw (kName names) = none) (hkt : getSlot kw (kType names) = none)
+    (hty : key names ty ≠ kName names) :
+    getSlot v.varCtx (kName names) = some name ∧
+    ∀ j a, getSlot kw j = some a → j ≠ key names ty → getSlot v.varCtx j = some a := by
+  unfold mkVariable at h
+  simp only [] at h
+  split at h
+  · cases h
+    refine ⟨?_, ?_⟩
+    · rw [getSlot_dictUpdate, hkn, getSlot_setSlot]; simp
+    · intro j a hj _
+      rw [getSlot_dictUpdate, hj]
+  · cases h
+    refine ⟨?_, ?_⟩
+    · rw [getSlot_setSlot, getSlot_setSlot, getSlot_dictUpdate, hkn, getSlot_setSlot]
+      simp [hn.name_ne_type, Ne.symm hty]
+    · intro j a hj hjt
+      have hjty : j ≠ kType names := by intro he; rw [he, hkt] at hj; cases hj
+      rw [getSlot_setSlot, getSlot_setSlot, getSlot_dictUpdate, hj]
+      simp [hjty, hjt]
+
+end
+
+/-! ### concrete instances (non-vacuity) and the counterexample for the pinned condition
+
+Alphabet `a, compose, name, t0, ta, tb, type, variable`; `exV0 = Variable("v0", f)` (untyped),
+`exV1 = Variable("v1", g, type="ta", a=3)`, `exV2 = Variable("v2", h, type="tb")`; the value `exX` carries
+`context.variable = {"name": "z", "type": "t0", "t0": {"name": "z"}}`. -/
+
+def exNames : List String := ["a", "compose", "name", "t0", "ta", "tb", "type", "variable"]
+def exVar (name : String) (f : Nat → Nat) (ty : String) (kw : Slots) : Variable Nat :=
+  match mkVariable exNames (.str name) (.fn f) (.str ty) kw with
+  | .ok v => v
+  | .error _ => ⟨f, []⟩
+def exV0 : Variable Nat := exVar "v0" (· + 1) "" (emptyD 8)
+def exV1 : Variable Nat := exVar "v1" (2 * ·) "ta" [some (.int 3), none, none, none, none, none, none, none]
+def exV2 : Variable Nat := exVar "v2" (· + 7) "tb" (emptyD 8)
+def exPre : Slots :=
+  [none, none, some (.str "z"), some (.dict (setSlot (emptyD 8) 2 (some (.str "z")))), none, none, some (.str "t0"), none]
+def exX : Value Nat := .pair 5 (setSlot (emptyD 8) 7 (some (.dict exPre)))
+
+theorem exNames_ok : NamesOK exNames := namesOKb_sound (by decide)
+
+/-- `context.variable` of an outcome is a dictionary with a `compose` key -/
+def hasComposeList (o : Option Slots) : Bool :=
+  match o with
+  | some c =>
+    match getSlot c (kVariable exNames) with
+    | some (.dict r) => hasKey r (kCompose exNames)
+    | _ => false
+  | none => false
+
+/-- the hypotheses of `compose_eq_sequence` hold for the chain (typed, untyped, typed) on the value `exX` … -/
+example : ChainWF exNames (cvarOf exNames exX) ([exV1, exV0, exV2].map Variable.varCtx) :=
+  chainWFb_sound (by decide)
+
+/-- … and the common result lists all three types, with the sub-contexts of `t0`, `ta` and `tb` -/
+example : ctxOf (seqCall exNames true [exV1, exV0, exV2] exX) =
+    some (setSlot (emptyD 8) 7 (some (.dict
+      [none, some (.seq false [.str "t0", .str "ta", .str "tb"]), some (.str "v2"),
+       some (.dict (setSlot (emptyD 8) 2 (some (.str "z")))),
+       some (.dict [some (.int 3), none, some (.str "v1"), none, none, none, none, none]),
+       some (.dict (setSlot (emptyD 8) 2 (some (.str "v2")))), some (.str "tb"), none]))) := by rfl
+
+/-- the hypotheses of `compose_eq_sequence_pinned_partial` hold for the chain (typed, typed) on `exX` -/
+example : ChainWF exNames (cvarOf exNames exX) ([exV1, exV2].map Variable.varCtx) ∧
+    (∀ p, cvarOf exNames exX = some (.dict p) → hasKey p (kCompose exNames) = true → hasKey p (kType exNames) = true) ∧
+    (∀ b ∈ ([exV1, exV2].map Variable.varCtx).dropLast, hasKey b (kType exNames) = true) := by
+  refine ⟨chainWFb_sound (by decide), ?_, ?_⟩
+  · intro p hp
+    have : p = exPre := by
+      have h : cvarOf exNames exX = some (.dict exPre) := by rfl
+      rw [h] at hp; cases hp; rfl
+    subst this
+    decide
+  · intro b hb
+    have : b = exV1.varCtx := by simpa using hb
+    subst this
+    decide
+
+/-- **With the condition as pinned, `Compose(v0, v1)` and the Sequence `(v0, v1)` differ** on a value that
+carries a typed `context.variable` when `v0` is untyped: the full statement is false for `fx = false`.
+(`Compose` keeps the history `['t0', 'ta']`, the Sequence drops it.)  This is the defect reported in
+`notes/C14_defect_1.md`, repaired by commit 0eafe05 of /repo. -/
+theorem compose_ne_sequence_pinned : ¬ compose_eq_sequence_pinned_full := by
+  intro h
+  obtain ⟨c, hc, heq⟩ := h exNames Nat exNames_ok [exV0, exV1] (by simp) exX (chainWFb_sound (by decide))
+  have hvc : c.varCtx = exV1.varCtx := by
+    have h1 : (match mkCompose exNames false ([exV0, exV1].map some) (emptyD exNames.length) with
+        | .ok c => some c.varCtx
+        | .error _ => none) = some exV1.varCtx := by rfl
+    rw [hc] at h1
+    exact Option.some.inj h1
+  have h2 : ctxOf (call exNames false c exX) = ctxOf (seqCall exNames false [exV0, exV1] exX) := by rw [heq]
+  rw [ctxOf_call, hvc] at h2
+  -- `Compose` leaves a `compose` list in `context.variable`, the Sequence does not
+  have h3 := congrArg hasComposeList h2
+  have hl : hasComposeList (match updateContext exNames false (getDataContext exNames exX).2 exV1.varCtx with
+      | .ok c => some c
+      | .error _ => none) = true := by rfl
+  have hr : hasComposeList (ctxOf (seqCall exNames false [exV0, exV1] exX)) = false := by rfl
+  have hcontra : true = false := hl.symm.trans (h3.trans hr)
+  cases hcontra
+
+
+section
+variable {names : List String} {D : Type}
+
+/-! ### pairwise distinct non-empty types: every type sub-context persists, `compose` lists the types in order -/
+
+/-- `context.variable` after a chain of well-formed variables applied to a value (when no exception is raised:
+the only possible one is the `TypeError` for a truthy `context.variable` that is not a dictionary):
+the fold of `UP` over the variables' contexts, starting from the value's own `context.variable` -/
+theorem seqCall_result (hn : NamesOK names) (vars : List (Variable D)) (hne : vars ≠ []) (x : Value D)
+    (hpre : ∀ p, cvarOf names x = some (.dict p) → VarWF names p)
+    (hv : ∀ v ∈ vars, VarWF names v.varCtx) {d : D} {c : Slots}
+    (h : seqCall names true vars x = .ok (d, c)) :
+    getSlot c (kVariable names) =
+      some (.dict ((vars.map Variable.varCtx).foldl (UP names) (preDict names (cvarOf names x)))) := by
+  cases vars with
+  | nil => exact absurd rfl hne
+  | cons v1 rest =>
+    generalize hx : getDataContext names x = dc at *
+    obtain ⟨d0, ctx⟩ := dc
+    have hcv : cvarOf names x = getSlot ctx (kVariable names) := by simp [cvarOf, hx]
+    by_cases hdict : ∃ p, getSlot ctx (kVariable names) = some (.dict p)
+    · obtain ⟨p, hp⟩ := hdict
+      have hxp : x = .pair d0 ctx := by
+        cases x with
+        | bare d1 => simp [getDataContext] at hx; rw [← hx.2] at hp; simp at hp
+        | pair d1 c1 => simp [getDataContext] at hx; rw [hx.1, hx.2]
+      subst hxp
+      rw [seqCall_dict hn rest v1 d0 ctx p hp (hpre p (by rw [hcv, hp])) (hv v1 (by simp))
+        (fun w hw => hv w (by simp [hw])) (Or.inl rfl) (Or.inl rfl)] at h
+      cases h
+      rw [getSlot_setSlot, hcv, hp]
+      simp [preDict]
+    · have hnd : ∀ p, getSlot ctx (kVariable names) ≠ some (.dict p) := fun p hp => hdict ⟨p, hp⟩
+      have hpd : preDict names (cvarOf names x) = emptyD names.length := by
+        rw [hcv]
+        unfold preDict
+        cases hg : getSlot ctx (kVariable names) with
+        | none => rfl
+        | some c0 =>
+          cases c0 with
+          | dict p => exact absurd hg (hnd p)
+          | int i => rfl
+          | str s => rfl
+          | seq b l => rfl
+      have hempty : ∀ a, UP names (emptyD names.length) a = a := by
+        intro a
+        apply UP_of_hist_nil
+        simp [hist]
+      have hcall : call names true v1 x =
+          match updateVar names true (getSlot ctx (kVariable names)) v1.varCtx with
+          | .ok r => .ok (v1.getter d0, setSlot ctx (kVariable names) (some (.dict r)))
+          | .error e => .error e := by
+        simp only [call, hx, updateContext]
+        cases updateVar names true (getSlot ctx (kVariable names)) v1.varCtx <;> rfl
+      rcases updateVar_nondict (names := names) true (getSlot ctx (kVariable names)) hnd with hok | ⟨e, herr⟩
+      · have hs : seqCall names true (v1 :: rest) x =
+            seqCall names true rest (.pair (v1.getter d0) (setSlot ctx (kVariable names) (some (.dict v1.varCtx)))) := by
+          simp only [seqCall, hcall, hok]
+        rw [hs] at h
+        rw [hpd]
+        simp only [List.map_cons, List.foldl_cons, hempty]
+        cases rest with
+        | nil =>
+          simp [seqCall, getDataContext] at h
+          rw [← h.2, getSlot_setSlot]; simp
+        | cons w r =>
+          rw [seqCall_dict hn r w _ _ v1.varCtx (by simp [getSlot_setSlot]) (hv v1 (by simp)) (hv w (by simp))
+            (fun u hu => hv u (by simp [hu])) (Or.inl rfl) (Or.inl rfl)] at h
+          cases h
+          rw [getSlot_setSlot]
+          simp
+      · simp [seqCall, hcall, herr] at h
+
+/-- Hypotheses of `types_persist` / `compose_order` on plain variables: **pairwise distinct non-empty types**
+that are keys of the alphabet and not the words `name`, `type`, `compose`; keyword arguments over the
+alphabet without `name`, `type` (named parameters) and `compose`; **no attribute named like a type** of the chain. -/
+structure LeavesOK (names : List String) (leaves : List (Leaf D)) : Prop where
+  nonempty : ∀ l ∈ leaves, l.ty ≠ ""
+  inNames : ∀ l ∈ leaves, l.ty ∈ names
+  reserved : ∀ l ∈ leaves, l.ty ≠ "name" ∧ l.ty ≠ "type" ∧ l.ty ≠ "compose"
+  kwLen : ∀ l ∈ leaves, l.kw.length = names.length
+  kwReserved : ∀ l ∈ leaves, getSlot l.kw (kName names) = none ∧ getSlot l.kw (kType names) = none ∧
+    getSlot l.kw (kCompose names) = none
+  distinct : (leaves.map Leaf.ty).Nodup
+  noClash : ∀ l ∈ leaves, ∀ l' ∈ leaves, getSlot l.kw (key names l'.ty) = none
+
+section leafFacts
+variable (hn : NamesOK names) {leaves : List (Leaf D)} (hl : LeavesOK names leaves)
+include hn hl
+
+omit hn in
+theorem Leaf.key_facts {l : Leaf D} (h : l ∈ leaves) :
+    key names l.ty ≠ kName names ∧ key names l.ty ≠ kType names ∧ key names l.ty ≠ kCompose names ∧
+    key names l.ty < names.length := by
+  have hr := hl.reserved l h
+  have hi := hl.inNames l h
+  exact ⟨key_ne_of_ne hi hr.1, key_ne_of_ne hi hr.2.1, key_ne_of_ne hi hr.2.2, key_lt hi⟩
+
+theorem Leaf.attrs_len {l : Leaf D} (h : l ∈ leaves) : (l.attrs names).length = names.length := by
+  unfold Leaf.attrs
+  have h1 : (setSlot (emptyD names.length) (kName names) (some l.name)).length = names.length := by
+    rw [length_setSlot _ _ _ (by simpa using hn.kName_lt)]; simp
+  rw [length_dictUpdate _ _ (h1.trans (hl.kwLen l h).symm), h1]
+
+theorem Leaf.hist_ctx {l : Leaf D} (h : l ∈ leaves) : hist names (l.ctx names) = [.str l.ty] := by
+  have kf := Leaf.key_facts hl h
+  have hk := hl.kwReserved l h
+  unfold hist
+  rw [Leaf.getSlot_ctx, Leaf.getSlot_ctx]
+  simp [Ne.symm hn.type_ne_compose, Ne.symm kf.2.2.1, hk.2.2, Ne.symm hn.name_ne_compose]
+
+theorem Leaf.varWF {l : Leaf D} (h : l ∈ leaves) : VarWF names (l.ctx names) := by
+  have kf := Leaf.key_facts hl h
+  have hk := hl.kwReserved l h
+  refine ⟨?_, ?_, ?_⟩
+  · unfold Leaf.ctx
+    have hal := Leaf.attrs_len hn hl h
+    rw [length_setSlot, length_setSlot, hal]
+    · rw [hal]; exact kf.2.2.2
+    · rw [length_setSlot _ _ _ (by rw [hal]; exact kf.2.2.2), hal]; exact hn.kType_lt
+  · intro v hv
+    rw [Leaf.getSlot_ctx] at hv
+    simp [Ne.symm hn.type_ne_compose, Ne.symm kf.2.2.1, hk.2.2, Ne.symm hn.name_ne_compose] at hv
+  · intro v hv
+    rw [Leaf.getSlot_ctx] at hv
+    simp at hv
+    exact ⟨l.ty, hv.symm, hl.nonempty l h⟩
+
+omit hn in
+/-- under its own type a leaf stores `{"name": name, **kw}`; it has no key named like another leaf's type -/
+theorem Leaf.ctx_at_type {l l' : Leaf D} (h : l ∈ leaves) (h' : l' ∈ leaves) :
+    getSlot (l.ctx names) (key names l'.ty) =
+      if l'.ty = l.ty then some (.dict (l.attrs names)) else none := by
+  have kf' := Leaf.key_facts hl h'
+  rw [Leaf.getSlot_ctx]
+  simp only [kf'.2.1, if_false]
+  by_cases he : l'.ty = l.ty
+  · simp [he]
+  · have : key names l'.ty ≠ key names l.ty := key_ne_of_ne (hl.inNames l' h') he
+    simp [this, he, hl.noClash l h l' h', kf'.1]
+
+theorem flatMap_hist_leaves (sub : List (Leaf D)) (hsub : ∀ l ∈ sub, l ∈ leaves) :
+    (sub.map (Leaf.ctx names)).flatMap (hist names) = sub.map (fun l => V.str l.ty) := by
+  induction sub with
+  | nil => rfl
+  | cons l r ih =>
+    simp only [List.map_cons, List.flatMap_cons, Leaf.hist_ctx hn hl (hsub l (by simp))]
+    rw [ih (fun l' h' => hsub l' (by simp [h']))]
+    rfl
+
+end leafFacts
+
+/-- **For variables with pairwise distinct non-empty types the attributes of every composed variable stay
+available under its type**: after the chain `v₁,…,vₙ` of plain typed variables (no attribute named like a
+type), applied to any value for which no exception is raised, `context.variable[typeᵢ] == {"name": nameᵢ, **kwᵢ}`
+for every `i` — any chain length, any pre-existing `context.variable`. -/
+theorem types_persist (hn : NamesOK names) (leaves : List (Leaf D)) (hne : leaves ≠ []) (hl : LeavesOK names leaves)
+    (x : Value D) (hpre : ∀ p, cvarOf names x = some (.dict p) → VarWF names p) {d : D} {c : Slots}
+    (h : seqCall names true (leaves.map (Leaf.var names)) x = .ok (d, c)) :
+    ∃ r, getSlot c (kVariable names) = some (.dict r) ∧
+      ∀ l ∈ leaves, getSlot r (key names l.ty) = some (.dict (l.attrs names)) := by
+  have hres := seqCall_result hn (leaves.map (Leaf.var names)) (by simpa using hne) x hpre
+    (by intro v hv; obtain ⟨l, hl', rfl⟩ := List.mem_map.1 hv; exact Leaf.varWF hn hl hl') h
+  refine ⟨_, hres, ?_⟩
+  intro l hmem
+  obtain ⟨pre, post, hsplit⟩ := List.append_of_mem hmem
+  have hctxs : (leaves.map (Leaf.var names)).map Variable.varCtx =
+      pre.map (Leaf.ctx names) ++ l.ctx names :: post.map (Leaf.ctx names) := by
+    rw [map_ctx_leaves, hsplit]; simp
+  rw [hctxs]
+  have kf := Leaf.key_facts hl hmem
+  apply chain_persist hn _ _ _ _ kf.2.2.1
+  · rw [Leaf.ctx_at_type hl hmem hmem]; simp
+  · rw [Leaf.hist_ctx hn hl hmem]; simp [inT]
+  · intro b hb
+    obtain ⟨l2, hl2, rfl⟩ := List.mem_map.1 hb
+    have hl2mem : l2 ∈ leaves := by rw [hsplit]; simp [hl2]
+    rw [Leaf.ctx_at_type hl hl2mem hmem]
+    have hnd := hl.distinct
+    rw [hsplit] at hnd
+    simp only [List.map_append, List.map_cons] at hnd
+    have h3 := (List.nodup_append.1 hnd).2.1
+    have h4 : l.ty ∉ post.map Leaf.ty := (List.nodup_cons.1 h3).1
+    have : l.ty ≠ l2.ty := fun he => h4 (List.mem_map.2 ⟨l2, hl2, he.symm⟩)
+    simp [this]
+
+/-- **… while `compose` lists the types in application order**: after the same chain, if the value already
+carried a composition history or the chain has at least two variables, `context.variable["compose"]` is the
+pre-existing history followed by `[type₁, …, typeₙ]`. -/
+theorem compose_order (hn : NamesOK names) (leaves : List (Leaf D)) (hne : leaves ≠ []) (hl : LeavesOK names leaves)
+    (x : Value D) (hpre : ∀ p, cvarOf names x = some (.dict p) → VarWF names p)
+    (hlen : preHist names (cvarOf names x) ≠ [] ∨ 2 ≤ leaves.length) {d : D} {c : Slots}
+    (h : seqCall names true (leaves.map (Leaf.var names)) x = .ok (d, c)) :
+    ∃ r, getSlot c (kVariable names) = some (.dict r) ∧
+      getSlot r (kCompose names) =
+        some (.seq false (preHist names (cvarOf names x) ++ leaves.map (fun l => V.str l.ty))) := by
+  have hres := seqCall_result hn (leaves.map (Leaf.var names)) (by simpa using hne) x hpre
+    (by intro v hv; obtain ⟨l, hl', rfl⟩ := List.mem_map.1 hv; exact Leaf.varWF hn hl hl') h
+  refine ⟨_, hres, ?_⟩
+  rw [map_ctx_leaves]
+  rw [fold_compose hn _ _ (by simpa using hne), hist_preDict, flatMap_hist_leaves hn hl leaves (fun l h => h)]
+  -- some history before the last variable
+  rw [hist_preDict]
+  rcases hlen with h1 | h1
+  · intro he
+    exact h1 (List.append_eq_nil_iff.1 he).1
+  · intro he
+    have h2 := (List.append_eq_nil_iff.1 he).2
+    cases leaves with
+    | nil => simp at h1
+    | cons l1 r =>
+      cases r with
+      | nil => simp at h1
+      | cons l2 r2 =>
+        simp only [List.map_cons, List.dropLast_cons_cons, List.flatMap_cons] at h2
+        rw [Leaf.hist_ctx hn hl (by simp)] at h2
+        simp at h2
+
+/-- the sub-contexts of the types the value already carried persist, too (for a type that is neither a type of
+the chain nor an attribute name of one of its variables nor `name`/`type`/`compose`) -/
+theorem earlier_types_persist (hn : NamesOK names) (leaves : List (Leaf D)) (hne : leaves ≠ []) (hl : LeavesOK names leaves)
+    (x : Value D) (p : Slots) (hcv : cvarOf names x = some (.dict p)) (hp : VarWF names p)
+    (s : String) (hs : V.str s ∈ hist names p)
+    (hres : key names s ≠ kName names ∧ key names s ≠ kType names ∧ key names s ≠ kCompose names)
+    (hfree : ∀ l ∈ leaves, key names s ≠ key names l.ty ∧ getSlot l.kw (key names s) = none)
+    {d : D} {c : Slots} (h : seqCall names true (leaves.map (Leaf.var names)) x = .ok (d, c)) :
+    ∃ r, getSlot c (kVariable names) = some (.dict r) ∧ getSlot r (key names s) = getSlot p (key names s) := by
+  have hres' := seqCall_result hn (leaves.map (Leaf.var names)) (by simpa using hne) x
+    (by intro q hq; rw [hcv] at hq; cases hq; exact hp)
+    (by intro v hv; obtain ⟨l, hl', rfl⟩ := List.mem_map.1 hv; exact Leaf.varWF hn hl hl') h
+  refine ⟨_, hres', ?_⟩
+  rw [map_ctx_leaves, hcv]
+  simp only [preDict]
+  apply fold_persist hn _ _ hres.2.2
+  · simp only [inT, List.any_eq_true]
+    exact ⟨_, hs, by simp⟩
+  · intro a ha
+    obtain ⟨l, hl', rfl⟩ := List.mem_map.1 ha
+    have hf := hfree l hl'
+    rw [Leaf.getSlot_ctx]
+    simp [hres.2.1, hf.1, hf.2, hres.1]
+
+end
+
+/-! ### a concrete instance of `LeavesOK` (non-vacuity of `types_persist`, `compose_order`, `earlier_types_persist`) -/
+
+def exL1 : Leaf Nat := ⟨.str "v1", (2 * ·), "ta", [some (.int 3), none, none, none, none, none, none, none]⟩
+def exL2 : Leaf Nat := ⟨.str "v2", (· + 7), "tb", emptyD 8⟩
+
+example : LeavesOK exNames [exL1, exL2] := by
+  refine ⟨?_, ?_, ?_, ?_, ?_, ?_, ?_⟩
+  · intro l hl
+    simp only [List.mem_cons, List.not_mem_nil, or_false] at hl
+    rcases hl with rfl | rfl <;> decide
+  · intro l hl
+    simp only [List.mem_cons, List.not_mem_nil, or_false] at hl
+    rcases hl with rfl | rfl <;> decide
+  · intro l hl
+    simp only [List.mem_cons, List.not_mem_nil, or_false] at hl
+    rcases hl with rfl | rfl <;> decide
+  · intro l hl
+    simp only [List.mem_cons, List.not_mem_nil, or_false] at hl
+    rcases hl with rfl | rfl <;> rfl
+  · intro l hl
+    simp only [List.mem_cons, List.not_mem_nil, or_false] at hl
+    rcases hl with rfl | rfl <;> exact ⟨rfl, rfl, rfl⟩
+  · decide
+  · intro l hl l' hl'
+    simp only [List.mem_cons, List.not_mem_nil, or_false] at hl hl'
+    rcases hl with rfl | rfl <;> rcases hl' with rfl | rfl <;> rfl
+
+/-- the two variables applied to `exX` (which carries the typed `context.variable` of `t0`): all three
+sub-contexts are there and `compose == ['t0', 'ta', 'tb']` -/
+example : (ctxOf (seqCall exNames true ([exL1, exL2].map (Leaf.var exNames)) exX)).bind
+      (fun c => getSlot c (kVariable exNames)) =
+    some (.dict
+      [none, some (.seq false [.str "t0", .str "ta", .str "tb"]), some (.str "v2"),
+       some (.dict (setSlot (emptyD 8) 2 (some (.str "z")))),
+       some (.dict [some (.int 3), none, some (.str "v1"), none, none, none, none, none]),
+       some (.dict (setSlot (emptyD 8) 2 (some (.str "v2")))), some (.str "tb"), none]) := by rfl
+
+
+section
+variable {names : List String} {D : Type}
+
+/-! ### the context of a `Combine` -/
+
+/-- **`Combine(v₁,…,vₙ, **kw)` without a `type` keyword** (whenever it can be constructed): its `var_context` has
+`combine` = the tuple of the variables' contexts, `dim = n`, no `type` (a `Combine` is untyped unless a type is
+given — the kind of variable that made `notes/C14_defect_1` show up), and every other keyword argument. -/
+theorem combine_context (hn : NamesOK names) (hcomb : "combine" ∈ names) (hdim : "dim" ∈ names)
+    (tup : List D → D) (args : List (Option (Variable D))) (kw : Slots)
+    (hkt : getSlot kw (kType names) = none) {c : Variable D}
+    (h : mkCombine names tup args kw = .ok c) :
+    getSlot c.varCtx (kCombine names) = some (.seq true ((args.filterMap id).map (fun v => V.dict v.varCtx))) ∧
+    getSlot c.varCtx (kDim names) = some (.int (args.filterMap id).length) ∧
+    getSlot c.varCtx (kType names) = none ∧
+    (∀ j a, getSlot kw j = some a → j ≠ kName names → j ≠ kCombine names → getSlot c.varCtx j = some a) := by
+  have hct : kCombine names ≠ kType names := by
+    intro he; have := key_inj hcomb he; simp at this
+  have hcd : kCombine names ≠ kDim names := by
+    intro he; have := key_inj hcomb he; simp at this
+  have hcn : kCombine names ≠ kName names := by
+    intro he; have := key_inj hcomb he; simp at this
+  have hdt : kDim names ≠ kType names := by
+    intro he; have := key_inj hdim he; simp at this
+  have hdn : kDim names ≠ kName names := by
+    intro he; have := key_inj hdim he; simp at this
+  unfold mkCombine at h
+  split at h
+  · cases h
+  · split at h
+    · cases h
+    · simp only [] at h
+      split at h
+      · cases h
+      · rename_i name hname
+        split at h
+        · cases h
+        · rename_i hnodim
+          split at h
+          · cases h
+          · -- the `type` handed to `Variable.__init__` is absent, i.e. `""`
+            have hty : getSlot (setSlot (setSlot (dictUpdate (emptyD names.length) (setSlot kw (kName names) none))
+                (kDim names) (some (.int (List.filterMap id args).length))) (kCombine names)
+                (some (.seq true ((List.filterMap id args).map (fun v => V.dict v.varCtx))))) (kType names) = none := by
+              rw [getSlot_setSlot, getSlot_setSlot, getSlot_dictUpdate, getSlot_setSlot]
+              simp [Ne.symm hct, Ne.symm hdt, hkt, Ne.symm hn.name_ne_type]
+            rw [hty] at h
+            simp only [Option.getD_none, mkVariable, truthy, bne_self_eq_false, Bool.not_false] at h
+            simp only [if_true] at h
+            cases h
+            simp only []
+            refine ⟨?_, ?_, ?_, ?_⟩
+            · rw [getSlot_dictUpdate, getSlot_setSlot, getSlot_setSlot]
+              simp [hct]
+            · rw [getSlot_dictUpdate, getSlot_setSlot, getSlot_setSlot, getSlot_setSlot]
+              simp [hdt, Ne.symm hcd]
+            · rw [getSlot_dictUpdate, getSlot_setSlot]
+              simp only [if_true]
+              rw [getSlot_setSlot]
+              simp [Ne.symm hn.name_ne_type]
+            · intro j a hj hjn hjc
+              have hjt : j ≠ kType names := by intro he; rw [he, hkt] at hj; cases hj
+              have hjd : j ≠ kDim names := by
+                intro he
+                rw [he] at hj
+                simp [hasKey, getSlot_setSlot, hdn, hj] at hnodim
+              rw [getSlot_dictUpdate, getSlot_setSlot, getSlot_setSlot, getSlot_setSlot, getSlot_dictUpdate,
+                getSlot_setSlot]
+              simp [hjt, hjc, hjd, hjn, hj]
+
+end
+
+/-- a `Combine` of an untyped and a typed variable over the alphabet
+`combine, compose, dim, getter, name, ta, type, variable` is constructed (the hypothesis of `combine_tuple`
+and `combine_context` is satisfiable) and names itself `x_y` -/
+example :
+    let ns := ["combine", "compose", "dim", "getter", "name", "ta", "type", "variable"]
+    let x : Variable Nat := ⟨(· + 1), setSlot (emptyD 8) 4 (some (.str "x"))⟩
+    let y : Variable Nat := ⟨(2 * ·), setSlot (setSlot (emptyD 8) 4 (some (.str "y"))) 6 (some (.str "ta"))⟩
+    (match mkCombine ns (fun l => l.sum) [some x, some y] (emptyD 8) with
+     | .ok c => (getSlot c.varCtx (kName ns), c.getter 5)
+     | .error _ => (none, 0)) = (some (.str "x_y"), 16) := by rfl
+
+
+end Lena.C14
